@@ -11,6 +11,7 @@ from oracles import plfun as P
 
 PROPERTY = "C10"
 PS = [1, 2, 3, 4, 1.5, 2.5, 7, 50]
+SCALES = [1e-9, 1e-4, 0.1, 1e3, 1e6]
 RTOL = 1e-9
 RULE = (
     "exact class: every operand of the C09 set (landscapes of all multisets of <= 2 lattice bars, all "
@@ -29,7 +30,7 @@ ASSUMPTIONS = [
 
 
 def bounds(tier):
-    return {"p": PS, "rtol": RTOL, "stability_bars_G": 4, "stability_n": 2 if tier == "quick" else 3,
+    return {"p": PS, "scales": SCALES, "rtol": RTOL, "stability_bars_G": 4, "stability_n": 2 if tier == "quick" else 3,
             "exact_operands": len(lsops.exact_operand_specs()), "grids": lsops.GRIDS}
 
 
@@ -55,18 +56,19 @@ def crosses(fs):
     return False
 
 
-def check_norms(ctx, pl, fs, what, desc):
+def check_norms(ctx, pl, fs, what, desc, ps=None):
     """Compare every norm of the persim object `pl` with the integrals of the reference functions fs."""
     ctx.state((what, [[(float(x), float(y)) for x, y in f] for f in fs]))
     if crosses(fs):
         ctx.nontriv("segment_crosses_zero", key=(what, desc))
     elif any(y < 0 for f in fs for _, y in f):
         ctx.nontriv("negative_values", key=(what, desc))
-    for p in PS:
+    for p in (ps or PS):
         v = ctx.call(pl.p_norm, p)
         ref = P.p_norm(fs, p)
         ctx.valid()
-        ok = is_num(v) and not isinstance(v, complex) and np.isfinite(v) and abs(float(v) - ref) <= RTOL * max(ref, 1e-6)
+        floor = 1e-6 * float(max([abs(y) for f in fs for _, y in f] or [1.0]) or 1.0)
+        ok = is_num(v) and not isinstance(v, complex) and np.isfinite(v) and abs(float(v) - ref) <= RTOL * max(ref, floor)
         if not ok:
             ctx.violation("p-norm-%s" % what, "p_norm(p=%r) of %s is not the p-th root of the integral of |f|^p" % (p, what),
                           observed=v if is_num(v) else repr(v), expected=ref, extra={"p": p, "function": desc})
@@ -91,10 +93,13 @@ def run_case(case, ctx):
         sa = specs[case["i"]]
         A = lsops.build_exact(sa)
         check_norms(ctx, A, lsops.exact_ref(A), "exact", {"A": sa})
-        # scaled copy (abscissae and ordinates times 0.1 / 1e3): homogeneity in both directions
-        for s in (0.1, 1e3):
+        # scaled copies (abscissae and ordinates): every numeric scale, homogeneity in both directions;
+        # p = 50 only where |f|^51 neither under- nor overflows in float64
+        for s in SCALES:
             S = lsops.build_exact(("cp", [[[s * x, s * y] for x, y in depth] for depth in A.critical_pairs]))
-            check_norms(ctx, S, lsops.exact_ref(S), "exact", {"A": sa, "scaled": s})
+            check_norms(ctx, S, lsops.exact_ref(S), "exact", {"A": sa, "scaled": s}, ps=PS if 1e-2 <= s <= 1e3 else PS[:-1])
+            M = ctx.call(lambda: s * A)  # ordinates only
+            check_norms(ctx, M, lsops.exact_ref(M), "exact", {"A": sa, "times": s}, ps=PS if 1e-2 <= s <= 1e3 else PS[:-1])
         for sb in specs:
             B = lsops.build_exact(sb)
             D = ctx.call(lambda: A - B)
@@ -116,6 +121,11 @@ def run_case(case, ctx):
             ctx.count("grid_operand_without_values")
             return
         check_norms(ctx, A, lsops.approx_ref(A), "grid", {"grid": grid, "A": sa})
+        from persim import PersLandscapeApprox
+
+        for s in SCALES:
+            G = PersLandscapeApprox(values=s * np.asarray(A.values, dtype=float), start=s * grid[0], stop=s * grid[1], num_steps=grid[2], hom_deg=0)
+            check_norms(ctx, G, lsops.approx_ref(G), "grid", {"grid": grid, "A": sa, "scaled": s}, ps=PS if 1e-2 <= s <= 1e3 else PS[:-1])
         partners = specs if grid[2] == 3 else specs[:: max(1, len(specs) // 12)]
         for sb in partners:
             B = lsops.build_approx(sb, grid)
